@@ -495,9 +495,9 @@ Fixpoint smin (r : R) : Z :=
 
 (* the option domain of the C01 quantifier ("tables whose columns are free to wrap"): no text or
    column switches wrapping off (no_wrap, overflow="ignore"), no column has a fixed width or a
-   min_width, ratios are positive, paddings non-negative, explicit widths of Align/Constrain/Panel leave
-   room for the structural minimum of what they hold, Tree children are Tree nodes, a ProgressBar (which
-   ends without a new line) is not followed by a sibling inside a group *)
+   min_width, ratios are positive, paddings non-negative, an explicit Panel width leaves room for the
+   structural minimum of what it holds, Tree children are Tree nodes, a ProgressBar (which ends without a
+   new line: known finding, props/C01.v) is not followed by a sibling inside a group *)
 Definition opt_ok (o : option Z) : bool := match o with Some x => negb (x =? Wrap.OV_IGNORE) | None => true end.
 Definition nonneg4 (p : Z * Z * Z * Z) : bool :=
   let '(t, r, b, l) := p in (0 <=? t) && (0 <=? r) && (0 <=? b) && (0 <=? l).
@@ -548,10 +548,7 @@ Fixpoint wrappable (r : R) : bool :=
          | Some w => let '(_, rr, _, l) := p_pad o in
                      2 + Z.max (l + rr + smin c) (match p_title o with [] => 0 | _ => 2 + txt_min (p_title o) end) <=? w
          end
-  (* Align renders its child at the child's measured maximum, which may be below the structural
-     minimum; for a table on the spine that case is not covered (see props/C01.v) *)
-  | Align c _ _ w => wrappable c && negb (spine_tables c)
-  | Constrain c w => wrappable c && match w with None => true | Some x => smin c <=? x end
+  | Align c _ _ _ | Constrain c _ => wrappable c
   | Styled c | NoMeasure c => wrappable c
   | Cast c => negb (is_cast c) && wrappable c
   | Group cs _ => forallb wrappable cs && all_but_last ends_nl cs
@@ -570,42 +567,6 @@ Fixpoint wrappable (r : R) : bool :=
   | Cols items o => nonneg4 (co_pad o) && forallb wrappable items
   | Tree lab kids _ => wrappable lab && forallb (fun k => is_tree k && wrappable k) kids
   end.
-
-(* the option domain of the property itself: as `wrappable`, without the restriction on Align's child.  The
-   spec checkers evaluate the statement on the implementation over THIS domain; the theorem is proved over
-   `wrappable` (props/C01.v says what is missing). *)
-Fixpoint wrappable' (r : R) : bool :=
-  match r with
-  | Txt _ _ ov nw => opt_ok ov && match nw with Some true => false | _ => true end
-  | Pad c t rr b l _ => (0 <=? t) && (0 <=? rr) && (0 <=? b) && (0 <=? l) && wrappable' c
-  | Panel c o =>
-      nonneg4 (p_pad o) && wrappable' c
-      && match p_width o with
-         | None => true
-         | Some w => let '(_, rr, _, l) := p_pad o in
-                     2 + Z.max (l + rr + smin c) (match p_title o with [] => 0 | _ => 2 + txt_min (p_title o) end) <=? w
-         end
-  | Align c _ _ _ => wrappable' c
-  | Constrain c w => wrappable' c && match w with None => true | Some x => smin c <=? x end
-  | Styled c | NoMeasure c => wrappable' c
-  | Cast c => negb (is_cast c) && wrappable' c
-  | Group cs _ => forallb wrappable' cs && all_but_last ends_nl cs
-  | Rule _ chars _ => 0 <? cell_len chars
-  | Bar size _ _ w => (0 <? size) && match w with None => true | Some x => 0 <=? x end
-  | PBar _ _ w _ _ => match w with None => true | Some x => 0 <=? x end
-  | Tbl t rows =>
-      let o := tb_o t in
-      nonneg4 (Table.o_pad o) && (0 <=? Table.o_leading o)
-      && match Table.o_width o with None => true | Some _ => false end
-      && match Table.o_minw o with None => true | Some _ => false end
-      && match tb_cols t with [] => false | _ => true end
-      && Bool.eqb (Table.o_box o) (match tb_boxc t with Some _ => true | None => false end)
-      && forallb col_ok (tb_cols t)
-      && forallb (fun row => (length row =? length (tb_cols t))%nat && forallb wrappable' row) rows
-  | Cols items o => nonneg4 (co_pad o) && forallb wrappable' items
-  | Tree lab kids _ => wrappable' lab && forallb (fun k => is_tree k && wrappable' k) kids
-  end.
-
 
 (* nesting depth of tables / columns *)
 Fixpoint table_depth (r : R) : Z :=
